@@ -567,7 +567,10 @@ def evalDuck (doc : Env) : E → Val
     -- "JSON path error" (BinderException)
     match i with
     | .num ds => arrow (evalDuck doc x) (.path [.idx (digitsVal ds)])
-    | .str _ => match evalDuck doc x with | .json _ => .err .binder | .null => .err .binder | w => w
+    | .str k =>
+      -- (a digit-only string subscript that reaches DuckDB is read in yet another way: outside the model)
+      if k.all isDigit then .unsup else
+      match evalDuck doc x with | .json _ => .err .binder | .null => .err .binder | w => w
   | .paren x => evalDuck doc x
   | .parseJson x => parseVal doc.pj (evalDuck doc x)
   | .cast x t => duckCast t (evalDuck doc x)
